@@ -149,6 +149,7 @@ def run(ctx):
     thorough = ctx.tier == "thorough"
     ctx.mc("MC_FaceTopology", "MC_FaceTopology_thorough.cfg" if thorough else "MC_FaceTopology_quick.cfg")
     if thorough:
+        faces.unbounded_face_checks(ctx, ("1x2N3", "3x1N2"))
         for shape in ("3x1", "1x3", "2x1N3", "1x1"):
             ctx.mc("MC_FaceTopology", f"MC_FaceTopology_{shape}.cfg", workers=8)
         # the per-face assembly as the code performs it, step by step, against the closed form the trace specs use
